@@ -351,7 +351,7 @@ func c10Prefix(c *Ctx) (*Scenario, *Violation) {
 		"bad-regexp":       {{"--include", "/[/"}, {"--exclude", "/(/"}, {"--include", "/a{2,1}/"}, {"--exclude", "/*/"}, {"--include", "/\\/"}, {"--include-regexp", "["}, {"--exclude-regexp", "("}},
 		"undefined-group":  {{"--include=@nosuchgroup"}, {"--exclude=@nope"}, {"--include=@"}, {"--refgroup=nosuch"}},
 		"bad-root": {{"nosuchref"}, {"refs/heads/nonexistent"}, {"0000000000000000000000000000000000000001"}, {ghost}, {"main", ghost}, {ghost, "main"}, {"--branches", ghost},
-			{"HEAD~99999"}, {"deadbeef"}, {":"}, {"@{-1}"}, {"main", "nosuchref"}, {"--", "no such thing"}, {"--", "refs/tags/none^{tree}"}, {"--", "HEAD:nonexistent/path"}, {"main:nonexistent"}, {"v1^{blob}"}},
+			{"HEAD~99999"}, {"deadbeef"}, {":"}, {"@{-1}"}, {"main", "nosuchref"}, {"nosuchref", "main"}, {"nosuchref", "also^{bogus}", "main"}, {"HEAD~99999", "v1"}, {"main", "nosuchref", "v1"}, {"--", "no such thing"}, {"--", "refs/tags/none^{tree}"}, {"--", "HEAD:nonexistent/path"}, {"main:nonexistent"}, {"v1^{blob}"}},
 		"bad-bool":      {{"--progress=maybe"}, {"--branches=perhaps"}, {"--verbose=2x"}, {"--critical=no!"}, {"--no-tags=x"}},
 		"missing-value": {{"--include"}, {"--threshold"}, {"--names"}, {"--json-version"}, {"--exclude-regexp"}, {"--refgroup"}},
 	}
@@ -436,7 +436,11 @@ func checkC10(c *Ctx, rt *rapid.T) {
 			inv.Args = cut
 		}
 		pos := g.Int(0, len(inv.Args), "badpos")
-		if class == "bad-root" || class == "bad-root-2" || class == "missing-value" {
+		if class == "bad-root" && len(inv.Roots) > 0 && g.Bool("badrootfirst") {
+			// before the valid ROOTs (arguments may be interspersed): the failure
+			// must not be forgotten when a later ROOT resolves
+			pos = 0
+		} else if class == "bad-root" || class == "bad-root-2" || class == "missing-value" {
 			pos = len(inv.Args)
 			for i, a := range inv.Args {
 				if a == "--" {
